@@ -22,7 +22,7 @@ def sh(cmd, **kw):
     return subprocess.run(cmd, shell=True, capture_output=True, text=True, **kw)
 
 
-def one(sid, checks, seeds, jobs, tier, write):
+def one(sid, checks, seeds, jobs, tier, write, cross=False):
     d = os.path.join(VERIF, "seeded", sid)
     meta = json.load(open(os.path.join(d, "meta.json")))
     wt = tempfile.mkdtemp(prefix="sm_%s_" % sid.replace("-", "_"), dir="/tmp")
@@ -48,7 +48,12 @@ def one(sid, checks, seeds, jobs, tier, write):
     finally:
         sh("git -C /repo worktree remove --force %s" % wt)
     caught = [k for k, v in res.items() if v["exit"] == 1]
-    if write:
+    if write and cross:
+        meta.setdefault("cross_property_checks", {}).update(res)
+        meta["caught_by_other_properties"] = sorted(set(meta.get("caught_by_other_properties", []) + caught))
+        with open(os.path.join(d, "meta.json"), "w") as fh:
+            json.dump(meta, fh, indent=1)
+    elif write:
         meta["head_rechecked"] = sh("git -C /repo rev-parse --short HEAD").stdout.strip()
         meta["verif_rechecked"] = sh("git -C %s rev-parse --short HEAD" % VERIF).stdout.strip()
         meta["checks_against_patched_tree"] = res
@@ -67,6 +72,7 @@ def main():
     ap.add_argument("--tier", default="quick")
     ap.add_argument("--checks", default=None)
     ap.add_argument("--no-write", action="store_true")
+    ap.add_argument("--cross", action="store_true", help="store the results of --checks under cross_property_checks instead of replacing the own-property results")
     a = ap.parse_args()
     ids = sorted(os.listdir(os.path.join(VERIF, "seeded")))
     if a.only:
@@ -75,7 +81,7 @@ def main():
     checks = a.checks.split(",") if a.checks else None
     missed = []
     with cf.ThreadPoolExecutor(a.par) as ex:
-        futs = [ex.submit(one, sid, checks, seeds, a.jobs, a.tier, not a.no_write) for sid in ids]
+        futs = [ex.submit(one, sid, checks, seeds, a.jobs, a.tier, not a.no_write, a.cross) for sid in ids]
         for f in cf.as_completed(futs):
             sid, res, caught = f.result()
             exits = {k: v["exit"] for k, v in res.items()} if "error" not in res else res
